@@ -175,6 +175,12 @@ def mismatch_confs():
     out.append(('responder-expects-other-id-type', base(b_over={'peer_auth': {"id": "alice.openikev2", "psk": "testing"}})))
     out.append(('both-wrong-psk', base(a_over={'peer_auth': {"id": "bob@openikev2", "psk": "aaa-secret-one"}},
                                        b_over={'peer_auth': {"id": "alice@openikev2", "psk": "bbb-secret-two"}})))
+    # asymmetric keys, sections swapped at one end: the peer signs with the key this end uses for itself
+    out.append(('initiator-swapped-sections', base(a_over={'my_auth': {"id": "alice@openikev2", "psk": "testing2"},
+                                                           'peer_auth': {"id": "bob@openikev2", "psk": "testing"}})))
+    out.append(('responder-swapped-sections', base(b_over={'my_auth': {"id": "bob@openikev2", "psk": "testing"},
+                                                           'peer_auth': {"id": "alice@openikev2", "psk": "testing2"}})))
+    out.append(('one-key-for-both-directions', base(a_over={'my_auth': {"id": "alice@openikev2", "psk": "testing2"}})))
     rsa_a = {"id": "alice@openikev2", "privkey": S.PRIVKEY}
     out.append(('rsa-ok', base(a_over={'my_auth': rsa_a}, b_over={'peer_auth': {"id": "alice@openikev2", "pubkey": S.PUBKEY}})))
     out.append(('rsa-method-mismatch', base(a_over={'my_auth': rsa_a})))
@@ -205,6 +211,13 @@ def odd_situations():
         out.append(('prf-changes-at-rekey:%s-%s' % (x, y), c, None,
                     [('acquire', 'A', 0, 0), 'drain', ('due', 'B', 0, 'rekey_ike'), 'drain', ('acquire', 'A', 0, 0), 'drain',
                      ('due', 'A', -1, 'rekey_ike'), 'drain']))
+    # the responder is under load and says so (cookie branch of the dispatcher)
+    out.append(('responder-under-load', S.base_confs(), None, [('threshold', 'B', -1), ('acquire', 'A', 0, 0), 'drain']))
+    # Diffie-Hellman secrets with leading zero octets: with the 521-bit curve the first octet holds one significant bit, so
+    # about every second exchange has one (ten rekeys in a row)
+    c = S.base_confs(a_over={'dh': ['21']}, b_over={'dh': ['21']}, a_entry={'dh': ['21']}, b_entry={'dh': ['21']})
+    out.append(('dh-secrets-with-leading-zero', c, None,
+                [('acquire', 'A', 0, 0), 'drain'] + [('due', 'A', -1, 'rekey_ike'), 'drain', ('acquire', 'B', 0, 0), 'drain'] * 5))
     return out
 
 
@@ -229,6 +242,8 @@ def run_handshakes():
                 while w.net and steps < 30:
                     steps += 1
                     do(('deliver', w.net[0].id))
+            elif item[0] == 'threshold':
+                w.endpoints[item[1]].controller.cookie_threshold = item[2]
             else:
                 if item[0] == 'due' and item[2] == -1:
                     sas = w.endpoints[item[1]].controller.ike_sas
@@ -265,11 +280,14 @@ def replay(path):
     sc = doc['scenario']
     res = []
     if 'handshake' in sc:
-        table = {label: (confs, None) for label, confs in mismatch_confs()}
-        table.update({label: (confs, addrs) for label, confs, addrs, _ in odd_situations()})
-        confs, addrs = table[sc['handshake']]
+        table = {label: (confs, None, []) for label, confs in mismatch_confs()}
+        table.update({label: (confs, addrs, script) for label, confs, addrs, script in odd_situations()})
+        confs, addrs, script = table[sc['handshake']]
         note_conf(confs)
         w = S.new_world(confs, addrs)
+        for item in script:
+            if item[0] == 'threshold':
+                w.endpoints[item[1]].controller.cookie_threshold = item[2]
         for ev in doc['history']:
             pre = w.fork()
             w.step(ev)
